@@ -111,7 +111,8 @@ def r1_no_panic(ctx, ents, cl):
                     (c.name.split("::")[-1] if "panicking" in c.name else pr.kind_of(c), c.loc(), " -> ".join(x.split(" (")[0].split("::")[-2] + "::" + x.split(" (")[0].split("::")[-1] for x in prog.chain(cl, bid)[-3:])), c.loc())
     ctx.ok(rule, ["closure"], "closure scanned", None, sample={"entries": len(ents), "bodies_in_closure": len(cl), "explicit_panic_sites": n,
                                                              "not_analysed_assert_terminators": dict(asserts)})
-    ctx.info("C02 not analysed: %d Assert terminators in the parser closure (%s)" % (sum(asserts.values()), dict(asserts)))
+    ctx.info("C02 Assert terminators in the parser closure: %s (BoundsCheck: decided by R3; Overflow: narrow / parsed-64-bit input by R4, the rest not decided; "
+             "division by zero: not decided)" % dict(asserts))
 
 
 class Taint:
